@@ -146,13 +146,33 @@ func TestC02Sweep(t *testing.T) {
 			}
 		}
 	}
-	for k := 2; k <= 16; k++ {
+	maxN, maxK := 6000000, 18
+	if thorough() && mode == "huge" {
+		maxN, maxK = 100000000, 22
+	}
+	for k := 2; k <= maxK; k++ {
 		b := 5*(1<<uint(k+2)) + k - 3
+		if thorough() && mode == "huge" && k < 19 {
+			continue
+		}
 		for _, n := range []int{b - 1, b, b + 1} {
-			if n >= 100 && n <= 1400000 {
+			if n >= 100 && n <= maxN {
 				cases = append(cases, statCase{Test: "runsDist", Seq: gen.Seq{Family: "uniform", N: n, Seed: uint64(n)}})
 				cases = append(cases, statCase{Test: "runsDist", Seq: gen.Seq{Family: "runs", N: n, Seed: uint64(n), A: k + 2, B: k, F: 0.1}})
 			}
+		}
+	}
+	if thorough() && mode == "huge" {
+		cases = cases[:0:0]
+		for k := 19; k <= 22; k++ {
+			b := 5*(1<<uint(k+2)) + k - 3
+			if b <= maxN {
+				cases = append(cases, statCase{Test: "runsDist", Seq: gen.Seq{Family: "uniform", N: b, Seed: uint64(b)}})
+			}
+		}
+		for _, n := range []int{10000000, 100000000} {
+			cases = append(cases, statCase{Test: "runsDist", Seq: gen.Seq{Family: "uniform", N: n, Seed: 3}}, statCase{Test: "runs", Seq: gen.Seq{Family: "uniform", N: n, Seed: 4}},
+				statCase{Test: "longest", Flag: true, Seq: gen.Seq{Family: "uniform", N: n, Seed: 5}}, statCase{Test: "longest", Flag: false, Seq: gen.Seq{Family: "markov", N: n, Seed: 6, F: 0.55}})
 		}
 	}
 	enumerate(t, "C02", cases, checkC02)
